@@ -274,6 +274,26 @@ func replay(d doc) *divergence {
 			}
 		}
 	}
+	// reward outputs: the coinbase output of every reward-paying block (odd heights, E = 2) of the scenario is in the
+	// store exactly when that block is on the main chain (a detached branch must take its rewards with it)
+	mainBlk := map[int]bool{}
+	for _, id := range d.Obs.InMain {
+		mainBlk[id] = true
+	}
+	for _, id := range order {
+		b := w.Blocks[id]
+		if b == nil || b.Height%2 != 1 || b.Transactions[0].Outputs[0].Amount == 0 {
+			continue
+		}
+		oid := *b.Transactions[0].ResultIds[0]
+		e, err := env.Store.GetUtxo(&oid)
+		if mainBlk[id] && (err != nil || e.Spent || e.Type != storage.CoinbaseUTXOType || e.BlockHeight != b.Height) {
+			return &divergence{last, "C10", "reward-output-missing", fmt.Sprintf("after %s: the reward output of main-chain block %d (height %d) is not an unspent coinbase entry of that height in the store (err=%v entry=%v)", what, id, b.Height, err, e)}
+		}
+		if !mainBlk[id] && err == nil {
+			return &divergence{last, "C10", "reward-output-of-detached-block", fmt.Sprintf("after %s: the reward output of block %d (height %d), which is not on the main chain, is still in the store", what, id, b.Height)}
+		}
+	}
 	// contract table
 	raw := env.KV.Get(database.CalcContractKey(m.CHash))
 	gotReg := 0
